@@ -1528,8 +1528,8 @@ func funcModifypathWithAllocator(v any, args []any) any {
 }
 
 func (a allocator) release(v any, path []any) {
-	for i, p := range path {
-		if _, ok := p.(map[string]any); ok && i == len(path)-1 {
+	for _, p := range path {
+		if _, ok := p.(map[string]any); ok {
 			break // a slice shares the array with its parent
 		}
 		switch v.(type) {
